@@ -147,3 +147,59 @@ macro_rules! authfail_harness {
 authfail_harness!(c07_q_authfail_x1n_r2_second, Pat::X1N, 0, 2, 2);
 authfail_harness!(c07_q_authfail_xx_r1_second, Pat::XX, 0, 1, 2);
 authfail_harness!(c07_t_authfail_x1n_r2_first, Pat::X1N, 0, 2, 1);
+
+/// (iv) two REAL consecutive calls: the endpoint itself processes message k-1 (so whatever that step leaves
+/// behind - including the bookkeeping a later rollback relies on - is the code's own), then an out-of-turn call
+/// fails, then message k is written / read and must be the specification's.
+pub fn prev_step_then_fail_then_step(pat: Pat, psk_mask: u16, k: usize) {
+    let pro: [u8; 2] = kani::any();
+    let mut pair = rm_pair::<P>(pat, psk_mask, NAME.as_bytes(), &pro);
+    rm_advance::<P>(&mut pair, k - 1);
+    // X = the party that writes message k (so it READS message k-1)
+    let (mut rm_x, mut rm_peer) = if k % 2 == 0 { (pair.i, pair.r) } else { (pair.r, pair.i) };
+    let mut hs = snow_from_rm_a::<8, 4, 4>(&rm_x, NAME, false);
+    let e1: [u8; 8] = kani::any();
+    let p1: [u8; 1] = kani::any();
+    let mut m = [0u8; MSGBUF];
+    let mut ok = true;
+    let n = HsOps::<P>::write(&mut rm_peer, &e1[..4], &p1, &mut m, &mut ok);
+    let mut o = [0u8; 8];
+    let r0 = hs.read_message(&m[..n], &mut o);
+    let mut o2 = [0u8; 8];
+    HsOps::<P>::read(&mut rm_x, &m[..n], &mut o2, &mut ok);
+    assert!(ok && r0 == Ok(1), "C07 harness: genuine message k-1 must be read");
+    // failing call: a read when it is X's turn to write
+    let junk: [u8; 6] = kani::any();
+    let r1 = hs.read_message(&junk, &mut o);
+    assert!(r1.is_err(), "C07 harness: out-of-turn read must fail");
+    // now message k
+    let e2: [u8; 8] = kani::any();
+    set_rng_slot(0, &e2);
+    let p2: [u8; 2] = kani::any();
+    let mut buf_s = [0u8; MSGBUF];
+    let mut buf_r = [0u8; MSGBUF];
+    let rs = hs.write_message(&p2, &mut buf_s);
+    let nr = HsOps::<P>::write(&mut rm_x, &e2[..4], &p2, &mut buf_r, &mut ok);
+    kani::cover!(ok, "C07 two-call harness reached");
+    assert!(rs == Ok(nr), "C07: the step after a failed call does not succeed with the specification's length");
+    crate::assert_prefix_eq!(buf_s, buf_r, nr, MSGBUF, "C07: the message written after a failed call differs from the one a session without the failed call writes");
+    let snap = verif::snapshot(&hs);
+    assert!(diff_state::<P>(&snap, EP_A, &rm_x) == 0, "C07: state after (step, failed call, step) differs from the specification's after (step, step)");
+}
+
+macro_rules! twocall_harness {
+    ($name:ident, $pat:expr, $mask:expr, $k:expr) => {
+        #[kani::proof]
+        #[kani::unwind(34)]
+        pub fn $name() {
+            prev_step_then_fail_then_step($pat, $mask, $k);
+        }
+    };
+}
+// measured: > 10 min (the endpoint's own first step leaves position / flags as conditional values for the next
+// two calls) - thorough tier only, 60 min cap. The quick tier covers the same bookkeeping through the post-state
+// comparison of single steps (the checkpoint copy of the cipher key must equal the installed key):
+twocall_harness!(c07_t_twocall_xxpsk2_k2, Pat::XX, 4, 2);
+twocall_harness!(c07_t_twocall_nnpsk1_k1, Pat::NN, 2, 1);
+retry_harness!(c07_q_step_xxpsk2_r1_checkpoint_key, step_read_pre, 1, Pat::XX, 4, 1, Pre::None);
+retry_harness!(c07_q_step_nnpsk1_w0_checkpoint_key, step_write_pre, 1, Pat::NN, 2, 0, Pre::None);
